@@ -60,9 +60,13 @@ def c14_extra(tier, seed, harness, problems, stats, build_harness):
             fs["distinct"].add("%d/%d" % (s, i))
         for i in range(nt):
             fs["nontrivial"].add("%d/%d" % (s, i))
+        sets_only = [l for l in out.splitlines() if l.startswith("SETS-ONLY ")]
         if len(fs["samples"]) < 3:
             fs["samples"].append({"op": "harness-race c14race %d %d" % (s, rounds), "go": m.group(0)[:300], "model": "-", "spec": "-",
-                                  "note": "yields at hook points 1/2/3/4 = %s; race reports = %d" % (m.group(6), races)})
+                                  "note": "yields at hook points 1/2/3/4 = %s; race reports = %d%s" % (
+                                      m.group(6), races,
+                                      ("; answers equal to the sequential ones only AS SETS (a rule returned twice, see "
+                                       "DESIGN.md section 6; not counted as a violation), e.g. " + sets_only[0][:600]) if sets_only else "")})
     fs["wall_s"] += time.time() - t0
 
 
